@@ -57,7 +57,8 @@ define user request lookup
 
 
 def v1_world(in_order=(), out_order=(), dialog=False, exceptions=False, extra_yaml="", extra_colang=""):
-    colang = "".join(v1_rail(r, "input") for r in IN_RAILS) + "".join(v1_rail(r, "output") for r in OUT_RAILS)
+    # only configured rails are defined: an unconfigured `define flow x` would be an ordinary dialog flow
+    colang = "".join(v1_rail(r, "input") for r in in_order) + "".join(v1_rail(r, "output") for r in out_order)
     if dialog:
         colang += V1_DIALOG
     colang += extra_colang
